@@ -4,19 +4,49 @@
 // bin/check runs it on every invocation against the current working tree (or a mutant overlay) and re-checks the
 // tie theorems of lean/Otel/Cxx/GenTie.lean against what it prints.
 //
-// Supported site kinds (anything else at a configured site is an error, i.e. a broken tie — nothing is skipped silently):
+// Supported site kinds (anything else at a configured site is an error, i.e. a broken tie — nothing is skipped silently;
+// a package that does not type-check is an error too, since constants and identifiers could not be trusted):
 //
 //	const   package-level constants / variables with a constant initialiser: the *evaluated* value is emitted
-//	        (integers and time.Duration as Int, in nanoseconds; strings as String; booleans as Bool).
+//	        (integers and time.Duration as Int, in nanoseconds; strings as String; booleans as Bool); a name
+//	        `pkg.Name` denotes a constant of a package the site's file imports under the local name pkg.
 //	struct  a package-level `var X = T{Field: constexpr, …}` composite literal: the listed fields, evaluated.
-//	skel    the decision skeleton of a function (or of the statements from a marked statement to the end of its block):
-//	        if / else, switch (with or without tag), return.  Conditions are decomposed over && || ! and parentheses;
-//	        a leaf must be (a) an expression whose source text is listed under "atoms" (it becomes a Bool parameter),
+//	map     a package-level `var X = map[K]V{k: v, …}` literal with constant keys and values: a list of pairs, sorted by key.
+//	boolfn  a function with a single bool result whose body is in the skel subset: every `return e` becomes the
+//	        condition e; the definition has type Bool (e.g. a character-class predicate over rune comparisons).
+//	litlist the unique `field: []T{c1, c2, …}` key-value pair inside a function whose elements are numeric constants
+//	        (e.g. the default histogram boundaries): List Int, or List (Int × Int) = exact numerator/denominator.
+//	skel    the decision skeleton of a function (or of the statements from a marked statement — "start": text prefix,
+//	        "start_re": regular expression on the statement text, first ("start_nth": n-th) match in source order — to the end of its block;
+//	        or, with "closure": true, of the body of the first function literal inside the function (or inside the
+//	        initialiser of the package-level variable of that name); "until_re" cuts
+//	        the skeleton — leaf "<cut>" — at the first statement matching it, e.g. a loop it cannot follow):
+//	        if / else, switch (with or without tag), return; `continue` / `break` / `goto` become the leaves
+//	        "<continue>", "<break>", "<goto>" (e.g. for a skeleton that starts inside a loop body).  Conditions are decomposed over && || ! and parentheses;
+//	        a leaf must be (a) an expression whose source text is listed under "atoms" (it becomes a Bool parameter;
+//	        with a trailing '#' in the configured name, one parameter per source occurrence: name1, name2, … — for
+//	        re-reads of shared state such as the double check `if p.isShutdown.Load()` before and after Lock; `a == b`
+//	        is understood as the negation of a configured atom `a != b` and vice versa),
 //	        (b) a comparison of integer expressions built from literals, evaluated constants, + - * and the
 //	        expressions listed under "ints" (Int parameters; Go's fixed-width integers become unbounded Int), or
 //	        (c) a comparison ==/!= of a "strs" expression with a constant string.  A switch tag must be listed under
 //	        "ints" or "strs"; its case labels are evaluated with go/types (http.StatusTooManyRequests -> 429).
-//	        Every return statement must match one of the "returns" regular expressions and is replaced by that tag.
+//	        (d) a call `f(args)` of a package-level function of the same package with a single bool result is inlined
+//	        when f's body is itself in this subset (every `return e` of f becomes the condition e; integer / string /
+//	        bool parameters are bound to the translated arguments) — so a decision moved into a small helper
+//	        (`if isRetryableStatus(resp.StatusCode) {…}`) stays translatable.
+//	        Every return statement must match one of the "returns" regular expressions and is replaced by that tag;
+//	        in a tag `\1`…`\9` stand for the text of the pattern's capture groups, `${1}` for the evaluated constant
+//	        of the first result expression (enum mappings; strings unquoted), and `${v}` for the constant last assigned, on that path, to the local variable v listed under "track"
+//	        (`switch x { case A: c = K1 … }; return &T{Code: c}`: assignments `v = const`, `v := const`, `var v T`
+//	        are followed; any other assignment to a tracked variable is an error).
+//	        "selects": a `select` statement becomes a choice made by the environment — one String parameter selectN per
+//	        select statement of the function (source order) naming the communication that fires; each case's comm
+//	        text must match a configured pattern, whose label also joins the path effects ("select:<label>"); if no
+//	        label matches the parameter the leaf is "<blocked>".
+//	        "marks": a skipped simple statement whose text matches a marks regexp contributes its label to every leaf
+//	        reached after it on that path; such a site has type `String × List String` (tag, effects of the path in
+//	        order), e.g. `("<end>", ["code", "desc", "set"])`; a label may mention `${v}` of a tracked variable.
 //	        Other statements are skipped only if they contain no return statement and do not assign to an identifier
 //	        that occurs in an atom/int/str expression — unless their text matches one of the "allow" regexps.
 //
@@ -45,20 +75,28 @@ import (
 )
 
 type Site struct {
-	Kind    string      `json:"kind"`
-	File    string      `json:"file"`
-	Names   []string    `json:"names"`
-	Prefix  string      `json:"prefix"`
-	Func    string      `json:"func"`
-	Start   string      `json:"start"`
-	Name    string      `json:"name"`
-	Atoms   [][2]string `json:"atoms"`
-	Ints    [][2]string `json:"ints"`
-	Strs    [][2]string `json:"strs"`
-	Returns [][2]string `json:"returns"`
-	Allow   []string    `json:"allow"`
-	Var     string      `json:"var"`
-	Fields  []string    `json:"fields"`
+	Kind     string      `json:"kind"`
+	File     string      `json:"file"`
+	Names    []string    `json:"names"`
+	Prefix   string      `json:"prefix"`
+	Func     string      `json:"func"`
+	Start    string      `json:"start"`
+	StartRe  string      `json:"start_re"`
+	Closure  bool        `json:"closure"`
+	UntilRe  string      `json:"until_re"`
+	StartNth int         `json:"start_nth"`
+	Name     string      `json:"name"`
+	Atoms    [][2]string `json:"atoms"`
+	Ints     [][2]string `json:"ints"`
+	Strs     [][2]string `json:"strs"`
+	Returns  [][2]string `json:"returns"`
+	Allow    []string    `json:"allow"`
+	Var      string      `json:"var"`
+	Fields   []string    `json:"fields"`
+	Field    string      `json:"field"`
+	Track    []string    `json:"track"`
+	Marks    [][2]string `json:"marks"`
+	Selects  [][2]string `json:"selects"`
 }
 
 type PropCfg struct {
@@ -192,6 +230,10 @@ func loadPkg(dir string) *pkgInfo {
 	pi.info = &types.Info{Types: map[ast.Expr]types.TypeAndValue{}, Defs: map[*ast.Ident]types.Object{}, Uses: map[*ast.Ident]types.Object{}}
 	conf := types.Config{Importer: importer.ForCompiler(pi.fset, "gc", lookup), Error: func(err error) { pi.errs = append(pi.errs, err.Error()) }}
 	pi.pkg, _ = conf.Check(root.ImportPath, pi.fset, files, pi.info)
+	if len(pi.errs) > 0 {
+		// constants and identifier resolution cannot be trusted when the package does not type-check
+		die("package %s does not type-check: %s", root.ImportPath, pi.errs[0])
+	}
 	pkgs[dir] = pi
 	return pi
 }
@@ -260,9 +302,33 @@ func leanIdent(s string) string {
 
 // ---------------------------------------------------------------- const / struct
 
-func genConst(p *pkgInfo, s Site, out *strings.Builder) {
+func genConst(p *pkgInfo, file *ast.File, s Site, out *strings.Builder) {
 	for _, name := range s.Names {
-		obj := p.pkg.Scope().Lookup(name)
+		var obj types.Object
+		if i := strings.Index(name, "."); i > 0 {
+			// pkg.Name: a constant of a package imported by the site's file (local import name pkg)
+			local, sel := name[:i], name[i+1:]
+			for _, imp := range file.Imports {
+				pth := strings.Trim(imp.Path.Value, `"`)
+				for _, ip := range p.pkg.Imports() {
+					if ip.Path() != pth {
+						continue
+					}
+					ln := ip.Name()
+					if imp.Name != nil {
+						ln = imp.Name.Name
+					}
+					if ln == local {
+						obj = ip.Scope().Lookup(sel)
+					}
+				}
+			}
+			if _, ok := obj.(*types.Const); !ok {
+				die("%s: %s is not a constant of a package imported as %s", s.File, name, local)
+			}
+		} else {
+			obj = p.pkg.Scope().Lookup(name)
+		}
 		if obj == nil {
 			die("%s: no package-level object %s", s.File, name)
 		}
@@ -361,6 +427,115 @@ func genStruct(p *pkgInfo, s Site, out *strings.Builder) {
 	fmt.Fprintf(out, "/-- fields of `%s` set in the literal but not translated -/\ndef %s%s_otherFields : List String := [%s]\n\n", s.Var, s.Prefix, leanIdent(s.Var), quoteList(extra))
 }
 
+// genLitList: the unique `Field: []T{c1, c2, …}` key-value pair inside function s.Func whose elements are numeric
+// constants: emitted as `List Int` (all elements integral) or `List (Int × Int)` (exact numerator/denominator).
+func genLitList(p *pkgInfo, file *ast.File, s Site, out *strings.Builder) {
+	fd := findFunc(p, file, s.Func)
+	if fd == nil {
+		die("%s: no function %s", s.File, s.Func)
+	}
+	var lits []*ast.CompositeLit
+	ast.Inspect(fd.Body, func(n ast.Node) bool {
+		if kv, ok := n.(*ast.KeyValueExpr); ok && p.text(kv.Key) == s.Field {
+			if cl, ok := kv.Value.(*ast.CompositeLit); ok {
+				lits = append(lits, cl)
+			}
+		}
+		return true
+	})
+	if len(lits) != 1 {
+		die("%s: function %s has %d composite literals under the key %s (need exactly one)", s.File, s.Func, len(lits), s.Field)
+	}
+	var vals []constant.Value
+	allInt := true
+	for _, e := range lits[0].Elts {
+		tv, ok := p.info.Types[e]
+		if !ok || tv.Value == nil || (tv.Value.Kind() != constant.Int && tv.Value.Kind() != constant.Float) {
+			die("%s: %s: element `%s` of %s is not a numeric constant", s.File, s.Func, p.text(e), s.Field)
+		}
+		if constant.ToInt(tv.Value).Kind() != constant.Int {
+			allInt = false
+		}
+		vals = append(vals, tv.Value)
+	}
+	var items []string
+	for _, v := range vals {
+		if allInt {
+			items = append(items, leanInt(constant.ToInt(v).ExactString()))
+		} else {
+			items = append(items, "("+leanInt(constant.Num(v).ExactString())+", "+constant.Denom(v).ExactString()+")")
+		}
+	}
+	ty := "List Int"
+	if !allInt {
+		ty = "List (Int × Int)"
+	}
+	fmt.Fprintf(out, "/-- the elements of the literal `%s: …{…}` in `%s`, %s (evaluated, exact) -/\ndef %s : %s := [%s]\n\n", s.Field, s.Func, s.File, s.Name, ty, strings.Join(items, ", "))
+}
+
+// genMap: a package-level `var X = map[K]V{k1: v1, …}` whose keys and values are constants: emitted as a list of
+// (key, value) pairs sorted by the rendered key (a map literal has no order); duplicate keys are a compile error in Go.
+func genMap(p *pkgInfo, s Site, out *strings.Builder) {
+	var lit *ast.CompositeLit
+	for _, f := range p.files {
+		for _, d := range f.Decls {
+			gd, ok := d.(*ast.GenDecl)
+			if !ok || gd.Tok != token.VAR {
+				continue
+			}
+			for _, sp := range gd.Specs {
+				vs := sp.(*ast.ValueSpec)
+				for i, id := range vs.Names {
+					if id.Name == s.Var && i < len(vs.Values) {
+						if cl, ok := vs.Values[i].(*ast.CompositeLit); ok {
+							lit = cl
+						}
+					}
+				}
+			}
+		}
+	}
+	if lit == nil {
+		die("%s: no `var %s = map[K]V{…}` composite literal", s.File, s.Var)
+	}
+	if tv, ok := p.info.Types[lit]; !ok || tv.Type == nil {
+		die("%s: %s: untyped literal", s.File, s.Var)
+	} else if _, ok := tv.Type.Underlying().(*types.Map); !ok {
+		die("%s: %s is not a map literal", s.File, s.Var)
+	}
+	type kv struct{ k, v string }
+	var kvs []kv
+	kty, vty := "", ""
+	for _, e := range lit.Elts {
+		pair, ok := e.(*ast.KeyValueExpr)
+		if !ok {
+			die("%s: %s: element `%s` is not key: value", s.File, s.Var, p.text(e))
+		}
+		ktv, ok1 := p.info.Types[pair.Key]
+		vtv, ok2 := p.info.Types[pair.Value]
+		if !ok1 || !ok2 || ktv.Value == nil || vtv.Value == nil {
+			die("%s: %s: `%s` is not a constant key/value pair", s.File, s.Var, p.text(e))
+		}
+		kt, ks := leanValue(ktv.Value, s.File+":"+s.Var)
+		vt, vstr := leanValue(vtv.Value, s.File+":"+s.Var)
+		if (kty != "" && kt != kty) || (vty != "" && vt != vty) {
+			die("%s: %s: mixed key or value kinds", s.File, s.Var)
+		}
+		kty, vty = kt, vt
+		kvs = append(kvs, kv{ks, vstr})
+	}
+	if len(kvs) == 0 {
+		kty, vty = "String", "Int"
+	}
+	sort.Slice(kvs, func(i, j int) bool { return kvs[i].k < kvs[j].k })
+	var items []string
+	for _, x := range kvs {
+		items = append(items, "("+x.k+", "+x.v+")")
+	}
+	fmt.Fprintf(out, "/-- the map literal `%s` in %s (keys and values evaluated; sorted by key) -/\ndef %s%s : List (%s × %s) := [%s]\n\n",
+		s.Var, s.File, s.Prefix, leanIdent(s.Var), kty, vty, strings.Join(items, ", "))
+}
+
 func quoteList(xs []string) string {
 	var q []string
 	for _, x := range xs {
@@ -381,6 +556,15 @@ type skel struct {
 	allow   []*regexp.Regexp
 	guarded map[string]bool // identifiers occurring in atom/int/str expressions
 	where   string
+	selIdx  map[token.Pos]string // select statements: the String parameter that names the communication that fires
+	selRe   []*regexp.Regexp
+	until   *regexp.Regexp       // "until_re": translation stops (leaf "<cut>") at the first statement matching it
+	occ     map[token.Pos]string // atoms configured with a trailing '#': one Bool parameter per source occurrence
+	marks   []*regexp.Regexp
+	path    []string          // labels of the "marks" statements passed on the current path
+	env     map[string]string // tracked local variables ("track"): the constant last assigned on the current path
+	boolRet bool              // translating the body of an inlined Boolean helper: `return e` becomes the condition e
+	depth   int               // inlining depth
 }
 
 func (k *skel) fail(n ast.Node, f string, a ...any) {
@@ -431,6 +615,9 @@ func (k *skel) intExpr(e ast.Expr) (string, bool) {
 
 func (k *skel) cond(e ast.Expr) string {
 	t := k.p.text(e)
+	if n, ok := k.occ[e.Pos()]; ok {
+		return n
+	}
 	if n, ok := k.atoms[t]; ok {
 		return n
 	}
@@ -448,6 +635,18 @@ func (k *skel) cond(e ast.Expr) string {
 		case token.LOR:
 			return "(" + k.cond(x.X) + " || " + k.cond(x.Y) + ")"
 		case token.EQL, token.NEQ, token.LSS, token.LEQ, token.GTR, token.GEQ:
+			// `a == b` where the atom `a != b` is configured (or vice versa): its negation
+			if x.Op == token.EQL || x.Op == token.NEQ {
+				other := " != "
+				if x.Op == token.NEQ {
+					other = " == "
+				}
+				for _, pr := range [][2]ast.Expr{{x.X, x.Y}, {x.Y, x.X}} {
+					if n, ok := k.atoms[k.p.text(pr[0])+other+k.p.text(pr[1])]; ok {
+						return "(!" + n + ")"
+					}
+				}
+			}
 			// strings
 			if x.Op == token.EQL || x.Op == token.NEQ {
 				for _, pr := range [][2]ast.Expr{{x.X, x.Y}, {x.Y, x.X}} {
@@ -476,15 +675,129 @@ func (k *skel) cond(e ast.Expr) string {
 		}
 		return "false"
 	}
+	if call, ok := e.(*ast.CallExpr); ok {
+		if c, ok := k.inlineCall(call); ok {
+			return c
+		}
+	}
 	k.fail(e, "condition `%s` is neither a configured atom nor an integer/string comparison over configured expressions", t)
 	return ""
 }
 
+// inlineCall translates a condition `f(args)` where f is a package-level function of the same package with a single
+// bool result whose body is itself a translatable skeleton over its parameters: every `return e` of f becomes the
+// condition e, the parameters are bound to the translations of the arguments (integer parameters to integer
+// expressions, string parameters to configured "strs" expressions, bool parameters to conditions).
+func (k *skel) inlineCall(call *ast.CallExpr) (string, bool) {
+	id, ok := call.Fun.(*ast.Ident)
+	if !ok || k.depth >= 3 {
+		return "", false
+	}
+	fn, ok := k.p.info.Uses[id].(*types.Func)
+	if !ok || fn.Pkg() != k.p.pkg {
+		return "", false
+	}
+	sig := fn.Type().(*types.Signature)
+	if sig.Recv() != nil || sig.Variadic() || sig.Results().Len() != 1 {
+		return "", false
+	}
+	if b, ok := sig.Results().At(0).Type().Underlying().(*types.Basic); !ok || b.Kind() != types.Bool {
+		return "", false
+	}
+	var decl *ast.FuncDecl
+	for _, f := range k.p.files {
+		for _, d := range f.Decls {
+			if fd, ok := d.(*ast.FuncDecl); ok && fd.Recv == nil && fd.Body != nil && fd.Name.Name == id.Name {
+				decl = fd
+			}
+		}
+	}
+	if decl == nil || sig.Params().Len() != len(call.Args) {
+		return "", false
+	}
+	c := &skel{p: k.p, s: k.s, atoms: map[string]string{}, ints: map[string]string{}, strs: map[string]string{},
+		guarded: map[string]bool{}, env: map[string]string{}, boolRet: true, depth: k.depth + 1}
+	for i := 0; i < sig.Params().Len(); i++ {
+		pv := sig.Params().At(i)
+		name, arg := pv.Name(), call.Args[i]
+		if name == "" || name == "_" {
+			continue
+		}
+		b, _ := pv.Type().Underlying().(*types.Basic)
+		switch {
+		case b != nil && b.Info()&types.IsInteger != 0:
+			t, ok := k.intExpr(arg)
+			if !ok {
+				k.fail(arg, "argument `%s` of the inlined helper %s is not a translatable integer expression", k.p.text(arg), id.Name)
+			}
+			c.ints[name] = t
+		case b != nil && b.Info()&types.IsString != 0:
+			t, ok := k.strs[k.p.text(arg)]
+			if !ok {
+				k.fail(arg, "argument `%s` of the inlined helper %s is not a configured string expression", k.p.text(arg), id.Name)
+			}
+			c.strs[name] = t
+		case b != nil && b.Kind() == types.Bool:
+			c.atoms[name] = k.cond(arg)
+		default:
+			k.fail(arg, "parameter %s of the inlined helper %s has a type the translator does not handle", name, id.Name)
+		}
+		c.guarded[name] = true
+	}
+	return "(" + c.block(decl.Body.List, nil, "      ") + ")", true
+}
+
+// leaf renders a leaf: the tag, or — when the site configures "marks" — the pair (tag, labels of the marked
+// statements executed on the path to it, in order)
+func (k *skel) leaf(tag string) string {
+	if (len(k.s.Marks) == 0 && len(k.s.Selects) == 0) || k.boolRet {
+		return leanString(tag)
+	}
+	return "(" + leanString(tag) + ", [" + quoteList(k.path) + "])"
+}
+
 func (k *skel) ret(r *ast.ReturnStmt) string {
+	if k.boolRet {
+		if len(r.Results) != 1 {
+			k.fail(r, "inlined Boolean helper: `%s` does not return exactly one expression", k.p.text(r))
+		}
+		return k.cond(r.Results[0])
+	}
 	t := k.p.text(r)
 	for i, re := range k.rets {
 		if re.MatchString(t) {
-			return leanString(k.s.Returns[i][1])
+			tag := k.s.Returns[i][1]
+			if sm := re.FindStringSubmatch(t); len(sm) > 1 {
+				// `\1` … `\9` in a tag: the text matched by that capture group of the return pattern
+				for g := 1; g < len(sm) && g <= 9; g++ {
+					tag = strings.ReplaceAll(tag, fmt.Sprintf("\\%d", g), sm[g])
+				}
+			}
+			if strings.Contains(tag, "${1}") {
+				// the evaluated constant of the first result expression
+				if len(r.Results) == 0 {
+					k.fail(r, "`%s` has no result to evaluate for ${1}", t)
+				}
+				tv, ok := k.p.info.Types[r.Results[0]]
+				if !ok || tv.Value == nil {
+					k.fail(r, "first result of `%s` is not a constant (needed for ${1})", t)
+				}
+				val := tv.Value.ExactString()
+				if tv.Value.Kind() == constant.String {
+					val = constant.StringVal(tv.Value)
+				}
+				tag = strings.ReplaceAll(tag, "${1}", val)
+			}
+			for _, v := range k.s.Track {
+				if strings.Contains(tag, "${"+v+"}") {
+					val, ok := k.env[v]
+					if !ok {
+						k.fail(r, "tracked variable %s has no known constant value at `%s`", v, t)
+					}
+					tag = strings.ReplaceAll(tag, "${"+v+"}", val)
+				}
+			}
+			return k.leaf(tag)
 		}
 	}
 	k.fail(r, "return statement `%s` matches none of the configured return patterns", t)
@@ -538,17 +851,88 @@ func (k *skel) assignsGuarded(st ast.Stmt) string {
 func (k *skel) block(stmts []ast.Stmt, rest [][]ast.Stmt, ind string) string {
 	if len(stmts) == 0 {
 		if len(rest) == 0 {
-			return leanString("<end>")
+			if k.boolRet {
+				die("site %s: control reaches the end of an inlined Boolean helper", k.s.Name)
+			}
+			return k.leaf("<end>")
 		}
 		return k.block(rest[0], rest[1:], ind)
 	}
 	st, after := stmts[0], stmts[1:]
+	if k.until != nil && k.until.MatchString(k.p.text(st)) {
+		return k.leaf("<cut>")
+	}
 	cont := append([][]ast.Stmt{after}, rest...)
+	if name, val, ok := k.trackedAssign(st); ok {
+		old, had := k.env[name]
+		k.env[name] = val
+		r := k.block(after, rest, ind)
+		if had {
+			k.env[name] = old
+		} else {
+			delete(k.env, name)
+		}
+		return r
+	}
 	switch x := st.(type) {
 	case *ast.ReturnStmt:
 		return k.ret(x)
+	case *ast.BranchStmt:
+		// break / continue / goto leave the translated statement list: a leaf of their own (never skipped)
+		if k.boolRet {
+			k.fail(x, "`%s` inside an inlined Boolean helper", x.Tok)
+		}
+		return k.leaf("<" + x.Tok.String() + ">")
 	case *ast.BlockStmt:
 		return k.block(x.List, cont, ind)
+	case *ast.SelectStmt:
+		// the environment chooses: a String parameter names the communication that fires (labels from "selects");
+		// no configured label fires => "<blocked>"
+		par, ok := k.selIdx[x.Pos()]
+		if !ok {
+			k.fail(x, "select statement outside the pre-scanned function body")
+		}
+		var b strings.Builder
+		for _, cs := range x.Body.List {
+			cc := cs.(*ast.CommClause)
+			ct := "default"
+			if cc.Comm != nil {
+				ct = k.p.text(cc.Comm)
+			}
+			label := ""
+			for i, re := range k.selRe {
+				if re.MatchString(ct) {
+					label = k.s.Selects[i][1]
+					break
+				}
+			}
+			if label == "" {
+				k.fail(cc, "select case `%s` matches none of the configured \"selects\" patterns", ct)
+			}
+			body := cc.Body
+			if n := len(body); n > 0 {
+				if br, ok := body[n-1].(*ast.BranchStmt); ok && br.Tok == token.BREAK && br.Label == nil {
+					body = body[:n-1]
+				}
+			}
+			for _, st2 := range body {
+				ast.Inspect(st2, func(m ast.Node) bool {
+					if _, ok := m.(*ast.FuncLit); ok {
+						return false
+					}
+					if br, ok := m.(*ast.BranchStmt); ok && br.Tok == token.BREAK {
+						k.fail(br, "`break` inside a select clause is not supported")
+					}
+					return true
+				})
+			}
+			k.path = append(k.path, "select:"+label)
+			arm := k.block(body, cont, ind+"  ")
+			k.path = k.path[:len(k.path)-1]
+			b.WriteString("if (" + par + " == " + leanString(label) + ") then\n" + ind + "  " + arm + "\n" + ind + "else ")
+		}
+		b.WriteString("\n" + ind + "  " + k.leaf("<blocked>"))
+		return b.String()
 	case *ast.IfStmt:
 		pre := ""
 		if x.Init != nil {
@@ -664,8 +1048,78 @@ func (k *skel) block(stmts []ast.Stmt, rest [][]ast.Stmt, ind string) string {
 			}
 			k.fail(st, "statement `%.120s` assigns to `%s`, which a configured condition reads (add an `allow` pattern if it is the definition the condition refers to)", k.p.text(st), k.assignsGuarded(st))
 		}
+		for i, re := range k.marks {
+			if re.MatchString(k.p.text(st)) {
+				label := k.s.Marks[i][1]
+				for _, v := range k.s.Track {
+					if strings.Contains(label, "${"+v+"}") {
+						val, ok := k.env[v]
+						if !ok {
+							k.fail(st, "tracked variable %s has no known constant value at the marked statement", v)
+						}
+						label = strings.ReplaceAll(label, "${"+v+"}", val)
+					}
+				}
+				k.path = append(k.path, label)
+				r := k.block(after, rest, ind)
+				k.path = k.path[:len(k.path)-1]
+				return r
+			}
+		}
 		return k.block(after, rest, ind)
 	}
+}
+
+// trackedAssign recognises `v = const`, `v := const` and `var v T` (zero value, rendered "0"/"false"/"") for a
+// variable listed under "track"; any other statement that assigns to a tracked variable is rejected by skippable
+// (tracked variables are guarded).
+func (k *skel) trackedAssign(st ast.Stmt) (string, string, bool) {
+	isTracked := func(n string) bool {
+		for _, v := range k.s.Track {
+			if v == n {
+				return true
+			}
+		}
+		return false
+	}
+	switch x := st.(type) {
+	case *ast.AssignStmt:
+		if len(x.Lhs) == 1 && len(x.Rhs) == 1 && (x.Tok == token.ASSIGN || x.Tok == token.DEFINE) {
+			if id, ok := x.Lhs[0].(*ast.Ident); ok && isTracked(id.Name) {
+				tv, ok := k.p.info.Types[x.Rhs[0]]
+				if !ok || tv.Value == nil {
+					k.fail(st, "tracked variable %s is assigned the non-constant `%s`", id.Name, k.p.text(x.Rhs[0]))
+				}
+				if tv.Value.Kind() == constant.String {
+					return id.Name, constant.StringVal(tv.Value), true
+				}
+				return id.Name, tv.Value.ExactString(), true
+			}
+		}
+	case *ast.DeclStmt:
+		if gd, ok := x.Decl.(*ast.GenDecl); ok && gd.Tok == token.VAR && len(gd.Specs) == 1 {
+			vs := gd.Specs[0].(*ast.ValueSpec)
+			if len(vs.Names) == 1 && len(vs.Values) == 0 && isTracked(vs.Names[0].Name) {
+				zero := "0"
+				if obj := k.p.info.Defs[vs.Names[0]]; obj != nil {
+					if b, ok := obj.Type().Underlying().(*types.Basic); ok {
+						switch {
+						case b.Info()&types.IsString != 0:
+							zero = ""
+						case b.Info()&types.IsBoolean != 0:
+							zero = "false"
+						case b.Info()&types.IsNumeric == 0:
+							k.fail(st, "tracked variable %s has a type without a constant zero value", vs.Names[0].Name)
+						}
+					} else {
+						k.fail(st, "tracked variable %s has a type without a constant zero value", vs.Names[0].Name)
+					}
+				}
+				return vs.Names[0].Name, zero, true
+			}
+		}
+	}
+	return "", "", false
 }
 
 func (k *skel) skippable(st ast.Stmt) bool {
@@ -715,38 +1169,87 @@ func findFunc(p *pkgInfo, file *ast.File, name string) *ast.FuncDecl {
 
 func genSkel(p *pkgInfo, file *ast.File, s Site, out *strings.Builder) {
 	fd := findFunc(p, file, s.Func)
+	if fd == nil && s.Closure {
+		// `var X = f(…, func(…) {…})`: the function literal inside the initialiser of the package-level variable X
+		for _, d := range file.Decls {
+			gd, ok := d.(*ast.GenDecl)
+			if !ok || gd.Tok != token.VAR {
+				continue
+			}
+			for _, sp := range gd.Specs {
+				vs := sp.(*ast.ValueSpec)
+				for i, id := range vs.Names {
+					if id.Name == s.Func && i < len(vs.Values) {
+						fd = &ast.FuncDecl{Name: id, Body: &ast.BlockStmt{List: []ast.Stmt{&ast.ExprStmt{X: vs.Values[i]}}}}
+					}
+				}
+			}
+		}
+	}
 	if fd == nil {
 		die("%s: no function %s", s.File, s.Func)
 	}
-	k := &skel{p: p, s: s, atoms: map[string]string{}, ints: map[string]string{}, strs: map[string]string{}, guarded: map[string]bool{}}
+	k := &skel{p: p, s: s, atoms: map[string]string{}, ints: map[string]string{}, strs: map[string]string{}, guarded: map[string]bool{}, env: map[string]string{}}
+	for _, v := range s.Track {
+		k.guarded[v] = true
+	}
+	k.boolRet = s.Kind == "boolfn"
 	var params []string
 	addGuard := func(expr string) {
 		e, err := parser.ParseExpr(expr)
 		if err != nil {
 			die("site %s: cannot parse configured expression %q: %v", s.Name, expr, err)
 		}
-		ast.Inspect(e, func(n ast.Node) bool {
-			if se, ok := n.(*ast.SelectorExpr); ok {
-				// only the root identifier of a selector chain is a variable
-				ast.Inspect(se.X, func(m ast.Node) bool {
-					if id, ok := m.(*ast.Ident); ok {
-						k.guarded[id.Name] = true
+		// only the root of a selector chain is a variable (a.b.c -> a), never the field / method names
+		var guardExpr func(n ast.Node)
+		guardExpr = func(n ast.Node) {
+			ast.Inspect(n, func(m ast.Node) bool {
+				if se, ok := m.(*ast.SelectorExpr); ok {
+					root := se.X
+					for {
+						inner, ok := root.(*ast.SelectorExpr)
+						if !ok {
+							break
+						}
+						root = inner.X
 					}
-					return true
-				})
-				return false
-			}
-			if id, ok := n.(*ast.Ident); ok {
-				k.guarded[id.Name] = true
-			}
-			return true
-		})
+					guardExpr(root)
+					return false
+				}
+				if id, ok := m.(*ast.Ident); ok {
+					k.guarded[id.Name] = true
+				}
+				return true
+			})
+		}
+		guardExpr(e)
 	}
 	norm := func(s string) string { return strings.Join(strings.Fields(s), " ") }
 	for _, a := range s.Atoms {
+		addGuard(a[0])
+		if strings.HasSuffix(a[1], "#") {
+			// one parameter per occurrence, numbered in source order (a re-read of shared state may differ)
+			if k.occ == nil {
+				k.occ = map[token.Pos]string{}
+			}
+			base, n := strings.TrimSuffix(a[1], "#"), 0
+			ast.Inspect(fd.Body, func(m ast.Node) bool {
+				if ex, ok := m.(ast.Expr); ok && p.text(ex) == norm(a[0]) {
+					n++
+					name := fmt.Sprintf("%s%d", base, n)
+					k.occ[ex.Pos()] = name
+					params = append(params, "("+name+" : Bool)")
+					return false
+				}
+				return true
+			})
+			if n == 0 {
+				die("site %s: atom %q does not occur in %s", s.Name, a[0], s.Func)
+			}
+			continue
+		}
 		k.atoms[norm(a[0])] = a[1]
 		params = append(params, "("+a[1]+" : Bool)")
-		addGuard(a[0])
 	}
 	for _, a := range s.Ints {
 		k.ints[norm(a[0])] = a[1]
@@ -770,16 +1273,57 @@ func genSkel(p *pkgInfo, file *ast.File, s Site, out *strings.Builder) {
 			delete(k.guarded, pth[strings.LastIndex(pth, "/")+1:])
 		}
 	}
+	if len(s.Selects) > 0 {
+		k.selIdx = map[token.Pos]string{}
+		n := 0
+		ast.Inspect(fd.Body, func(m ast.Node) bool {
+			if sel, ok := m.(*ast.SelectStmt); ok {
+				n++
+				name := fmt.Sprintf("select%d", n)
+				k.selIdx[sel.Pos()] = name
+				params = append(params, "("+name+" : String)")
+			}
+			return true
+		})
+		for _, r := range s.Selects {
+			k.selRe = append(k.selRe, regexp.MustCompile(r[0]))
+		}
+	}
 	for _, r := range s.Returns {
 		k.rets = append(k.rets, regexp.MustCompile(r[0]))
 	}
 	for _, r := range s.Allow {
 		k.allow = append(k.allow, regexp.MustCompile(r))
 	}
+	for _, r := range s.Marks {
+		k.marks = append(k.marks, regexp.MustCompile(r[0]))
+	}
+	if s.UntilRe != "" {
+		k.until = regexp.MustCompile(s.UntilRe)
+	}
 	stmts := fd.Body.List
-	if s.Start != "" {
+	if s.Closure {
+		// the body of the first function literal of the function (`func f(..) resolver { return func(s) {…} }`)
+		var lit *ast.FuncLit
+		ast.Inspect(fd.Body, func(n ast.Node) bool {
+			if l, ok := n.(*ast.FuncLit); ok && lit == nil {
+				lit = l
+			}
+			return lit == nil
+		})
+		if lit == nil {
+			die("%s: function %s contains no function literal", s.File, s.Func)
+		}
+		stmts = lit.Body.List
+	}
+	var startRe *regexp.Regexp
+	if s.StartRe != "" {
+		startRe = regexp.MustCompile(s.StartRe)
+	}
+	if s.Start != "" || startRe != nil {
 		// the statements from the first statement whose text starts with s.Start to the end of its block
 		var found []ast.Stmt
+		nth := 0
 		ast.Inspect(fd.Body, func(n ast.Node) bool {
 			if found != nil {
 				return false
@@ -792,7 +1336,11 @@ func genSkel(p *pkgInfo, file *ast.File, s Site, out *strings.Builder) {
 				list = b.Body
 			}
 			for i, st := range list {
-				if strings.HasPrefix(p.text(st), s.Start) {
+				if (s.Start != "" && strings.HasPrefix(p.text(st), s.Start)) || (startRe != nil && startRe.MatchString(p.text(st))) {
+					nth++
+					if nth < s.StartNth {
+						continue
+					}
 					found = list[i:]
 					return false
 				}
@@ -800,7 +1348,7 @@ func genSkel(p *pkgInfo, file *ast.File, s Site, out *strings.Builder) {
 			return true
 		})
 		if found == nil {
-			die("%s: function %s has no statement starting with %q", s.File, s.Func, s.Start)
+			die("%s: function %s has no statement starting with %q", s.File, s.Func, s.Start+s.StartRe)
 		}
 		stmts = found
 	}
@@ -809,7 +1357,21 @@ func genSkel(p *pkgInfo, file *ast.File, s Site, out *strings.Builder) {
 	if s.Start != "" {
 		what += " from the statement `" + s.Start + " …`"
 	}
-	fmt.Fprintf(out, "/-- %s in %s -/\ndef %s %s : String :=\n  %s\n\n", what, s.File, s.Name, strings.Join(params, " "), body)
+	if s.StartRe != "" {
+		what += " from the first statement matching /" + s.StartRe + "/"
+	}
+	if s.Closure {
+		what = "decision skeleton of the closure returned by `" + s.Func + "`"
+	}
+	ty := "String"
+	if len(s.Marks) > 0 || len(s.Selects) > 0 {
+		ty = "String × List String"
+	}
+	if k.boolRet {
+		ty = "Bool"
+		what = "Boolean function `" + s.Func + "`"
+	}
+	fmt.Fprintf(out, "/-- %s in %s -/\ndef %s %s : %s :=\n  %s\n\n", what, s.File, s.Name, strings.Join(params, " "), ty, body)
 }
 
 func main() {
@@ -860,7 +1422,7 @@ func main() {
 	for _, f := range srcs {
 		fmt.Fprintf(&out, "--   %s\n", f)
 	}
-	fmt.Fprintf(&out, "\nnamespace Otel.Gen.%s\n\n", *prop)
+	fmt.Fprintf(&out, "\nnamespace Otel.Gen.%s\nset_option linter.unusedVariables false\n\n", *prop)
 	for _, s := range cfg.Sites {
 		path := filepath.Join(*repo, s.File)
 		p := loadPkg(filepath.Dir(path))
@@ -870,11 +1432,15 @@ func main() {
 		}
 		switch s.Kind {
 		case "const":
-			genConst(p, s, &out)
+			genConst(p, file, s, &out)
 		case "struct":
 			genStruct(p, s, &out)
-		case "skel":
+		case "skel", "boolfn":
 			genSkel(p, file, s, &out)
+		case "litlist":
+			genLitList(p, file, s, &out)
+		case "map":
+			genMap(p, s, &out)
 		default:
 			die("unknown site kind %q", s.Kind)
 		}
